@@ -71,12 +71,23 @@ func c04Harness(cfg *Cfg) func(x *mc.Exec) {
 		if x.Choose(2, "family") == 1 {
 			// window-fill family: the symbols that straddle the point where the decoder's output window is full,
 			// delivered bytewise and in every two-piece split around the compressed position of that point
-			j := []int{0, 1, 2, 3}[x.Choose(4, "bytes-before-fill")]
+			// bytes before the fill point: 0..3 (the window is full inside the symbols), and 256..260 / 272..276 (the
+			// symbols start where the assembly loop stops and hands over to the Go loop: 274 bytes before the window is
+			// full, one maximal match further on)
+			js := []int{0, 1, 2, 3, 256, 257, 258, 259, 260, 272, 273, 274, 275, 276}
+			j := js[x.Choose(len(js), "bytes-before-fill")]
 			nl := x.Choose(3, "literals-before-match")
 			L := []int{3, 258}[x.Choose(2, "match-len")]
 			d := []int{1, 17, 100, 4096}[x.Choose(4, "match-dist")]
+			if j > 3 && (L != 258 || d != 17) {
+				return
+			}
 			kind := x.Choose(2, "block-kind")
-			stream, name, at := g.windowFillStreamAt(65536, j, nl, L, d, kind)
+			lead := 0
+			if j > 3 {
+				lead = 120 // the assembly loop has been running for 30 (120) compressed bytes when it reaches the symbols
+			}
+			stream, name, at := g.windowFillStreamLead(65536, j, nl, L, d, kind, lead)
 			ref, ok := wfRef[name]
 			if !ok {
 				o := fastFlate(stream, env.PolicyAll)
